@@ -943,44 +943,57 @@ func (r *readerRun) splitJoined(b, term []byte) (segs [][]int, rest int, restOK 
 	segs = [][]int{}
 	var starts []int
 	for s := range r.expect {
-		starts = append(starts, s)
+		if r.expect[s] != nil {
+			starts = append(starts, s)
+		}
 	}
 	sort.Ints(starts)
-	pos := 0
-	for pos < len(b) || len(segs) == 0 {
-		// the longest expected content found here followed by term; all starts with that very content are candidates
-		best := -1
-		for _, s := range starts {
-			e := r.expect[s]
-			if e == nil {
-				continue
+	// Messages appear in stream order: search the segmentation into (content + term) pieces with increasing
+	// message starts that covers the longest prefix of b (a payload byte may coincide with the terminator,
+	// so a greedy choice can be wrong).
+	var best []int
+	bestPos := 0
+	var cur []int
+	var dfs func(pos, from int)
+	dfs = func(pos, from int) {
+		if pos > bestPos || (pos == bestPos && best == nil) {
+			bestPos = pos
+			best = append([]int{}, cur...)
+		}
+		if pos >= len(b) {
+			return
+		}
+		for k := from; k < len(starts); k++ {
+			e := r.expect[starts[k]]
+			if len(e)+len(term) == 0 {
+				continue // empty message and empty terminator: leaves no trace in the output
 			}
 			if pos+len(e)+len(term) <= len(b) && bytes.Equal(b[pos:pos+len(e)], e) && bytes.Equal(b[pos+len(e):pos+len(e)+len(term)], term) {
-				if best < 0 || len(e) > len(r.expect[best]) {
-					best = s
+				cur = append(cur, starts[k])
+				dfs(pos+len(e)+len(term), k+1)
+				cur = cur[:len(cur)-1]
+				if bestPos >= len(b) {
+					return
 				}
 			}
 		}
-		if best < 0 {
-			break
-		}
-		if len(r.expect[best])+len(term) == 0 {
-			break // empty message and empty terminator: leaves no trace in the output
-		}
+	}
+	dfs(0, 0)
+	for _, s0 := range best {
 		cand := []int{}
 		for _, s := range starts {
-			if r.expect[s] != nil && bytes.Equal(r.expect[s], r.expect[best]) {
+			if bytes.Equal(r.expect[s], r.expect[s0]) {
 				cand = append(cand, s)
 			}
 		}
 		segs = append(segs, cand)
-		pos += len(r.expect[best]) + len(term)
 	}
+	pos := bestPos
 	rest = len(b) - pos
 	restOK = rest == 0
 	if rest > 0 {
 		for _, s := range starts {
-			if r.expect[s] != nil && rest <= len(r.expect[s]) && bytes.Equal(r.expect[s][:rest], b[pos:]) {
+			if rest <= len(r.expect[s]) && bytes.Equal(r.expect[s][:rest], b[pos:]) {
 				restOK = true
 			}
 		}
